@@ -9,6 +9,7 @@ import (
 	"github.com/tink-crypto/tink-go/v2/key"
 	"github.com/tink-crypto/tink-go/v2/keyset"
 	"github.com/tink-crypto/tink-go/v2/signature"
+	"github.com/tink-crypto/tink-go/v2/signature/compositemldsa"
 	"github.com/tink-crypto/tink-go/v2/signature/ecdsa"
 	"github.com/tink-crypto/tink-go/v2/signature/mldsa"
 	"github.com/tink-crypto/tink-go/v2/signature/rsassapss"
@@ -74,11 +75,16 @@ func sigDefs() []sigDef {
 				params: func() (key.Parameters, error) { return mldsa.NewParameters(m.i, v.v) }})
 		}
 	}
+	for _, c := range compositeSets {
+		c := c
+		out = append(out, sigDef{name: "COMPOSITE_" + c.name + "/TINK", kind: "composite", draw: c.draw, variant: ref.Tink,
+			params: func() (key.Parameters, error) { return compositemldsa.NewParameters(c.alg, c.inst, compositemldsa.VariantTink) }})
+	}
 	for _, ht := range []slhdsa.HashType{slhdsa.SHA2, slhdsa.SHAKE} {
 		for _, ks := range []int{64, 96, 128} {
 			for _, st := range []slhdsa.SignatureType{slhdsa.FastSigning, slhdsa.SmallSignature} {
 				ht, ks, st := ht, ks, st
-				out = append(out, sigDef{name: fmt.Sprintf("SLH_DSA_%v_%d_%v/TINK", ht, ks/4*8, st), kind: "slhdsa", draw: ks / 4, variant: ref.Tink,
+				out = append(out, sigDef{name: slhName(ht, ks, st) + "/TINK", kind: "slhdsa", draw: ks / 4, variant: ref.Tink,
 					params: func() (key.Parameters, error) { return slhdsa.NewParameters(ht, ks, st, slhdsa.VariantTink) },
 					slow:   !(ks == 64 && st == slhdsa.FastSigning)})
 			}
@@ -89,7 +95,7 @@ func sigDefs() []sigDef {
 		ht   rsassapss.HashType
 		salt int
 		slow bool
-	}{{"SHA256", rsassapss.SHA256, 32, false}, {"SHA256", rsassapss.SHA256, 1, true}, {"SHA512", rsassapss.SHA512, 64, true}, {"SHA384", rsassapss.SHA384, 20, true}} {
+	}{{"SHA256", rsassapss.SHA256, 32, false}, {"SHA256", rsassapss.SHA256, 1, false}, {"SHA512", rsassapss.SHA512, 64, false}, {"SHA384", rsassapss.SHA384, 20, true}} {
 		for _, v := range []struct {
 			r ref.Variant
 			v rsassapss.Variant
